@@ -29,9 +29,14 @@ META = dict(
          "PPModel/Base/Regex.lean), full strength, each with non-vacuity examples: integer_language, "
          "hex_integer_language, signed_integer_language, real_language (+ ureal_language, accepts_signOpt), "
          "uuid_language (8-4-4-4-12 hex digits), iso8601_date_language (yyyy | yyyy-mm | yyyy-mm-dd), fnumber_language "
-         "(+ fnumber_body_language, expo_accepts: optional sign, digits, optional '.' digits*, optional exponent) - the "
+         "(+ fnumber_body_language, expo_accepts: optional sign, digits, optional '.' digits*, optional exponent), "
+         "sci_real_language (+ sci_body_language, ureal_first_sound/complete: optional sign, digits+exponent or real with "
+         "optional exponent) - the "
          "pattern read from the live package parses to the pinned AST and the AST's preferred re.match consumes the whole "
-         "string iff the string has the documented syntax. For sci_real, ieee_float, identifier, ipv4_address, "
+         "string iff the string has the documented syntax. ipv4_language_partial proves ONLY the soundness half for "
+         "ipv4_address (accepted => four octets of the pattern's exact policy, 1-2 digits or 1dd / 2[0-4]d / 25[0-5], "
+         "separated by dots); its converse (every such string is accepted: the preferred match is the full one) is "
+         "missing. For ieee_float, identifier, "
          "mac_address (back-reference: needs capture-aware lemmas about the matcher `m`), iso8601_datetime, number, "
          "fraction, ipv6 parts and the quoted-string built-ins only the generated-fact obligations (*_pattern_ast, "
          "*_leaves_fact, *_quoted_string_fact: live pattern = pinned AST, checked by the kernel on every run) are proved; "
@@ -59,6 +64,7 @@ THEOREMS = [
     "PP.C18.real_pattern_ast", "PP.C18.real_language", "PP.C18.ureal_language", "PP.C18.accepts_signOpt",
     "PP.C18.uuid_language", "PP.C18.iso8601_date_language", "PP.C18.fnumber_language", "PP.C18.fnumber_body_language",
     "PP.C18.expo_accepts",
+    "PP.C18.ipv4_language_partial", "PP.C18.mem_octet",
     "PP.C18.sci_real_language", "PP.C18.sci_body_language", "PP.C18.ureal_first_sound", "PP.C18.ureal_first_complete",
     "PP.C18.sci_real_pattern_ast", "PP.C18.fnumber_pattern_ast",
     "PP.C18.ieee_float_pattern_ast", "PP.C18.identifier_pattern_ast", "PP.C18.ipv4_address_pattern_ast",
